@@ -51,6 +51,9 @@ THEOREMS = [
     "Opacus.C03.zero_noise_huge_C_is_plain_mean",
     "Opacus.C03.modes_agree",
     "Opacus.C03.optimizer_table_sound",
+    # the tie to the source: Generated/ReleaseArith.lean is re-translated from opacus/optimizers/*.py on every run
+    "Opacus.C03.generated_release_arith_eq_model",
+    "Opacus.C03.generated_release_pointwise",
     "Opacus.C03.ebs_trunc_counterexample",
     "Opacus.C03.ebs_exact_eq_float_probe",
     "Opacus.C03.ebs_trunc_characterisation",
@@ -66,6 +69,7 @@ RULE = (
     "distinct by (arch, mode, clipping, reduction, E, script shape, weight seed)"
 )
 TRUSTED = [
+    "the translator vharness/props/release_trans.py (Python `ast` -> real arithmetic for `p.grad = (p.summed_grad + noise).view_as(p)`, `p.grad /= expected_batch_size * accumulated_iterations` and the distributed divisors; shape-only calls dropped; anything else is reported as a broken tie) is trusted to render those expressions faithfully; when and on which tensors they run is tied by the behavioural correspondence",
     "autograd linearity for the ghost second backward; inner optimizers (SGD/momentum/Adam) are outside the model: they only read p.grad (checked by trajectory comparison)",
     "noise enters as an arbitrary tensor z (its law is C04's subject)",
 ]
@@ -620,7 +624,14 @@ def gen_release_cfg(rng, thorough=False):
 D12_WITNESS = {"N": 98, "bs": 2, "poisson": False}
 
 
+def regenerate(ctx):
+    from .. import regen
+    from . import release_trans as T
+    regen.regenerate(ctx, T, "Opacus.Generated.Release", "release arithmetic (optimizers/optimizer.py, ddp*.py)")
+
+
 def run(ctx):
+    regenerate(ctx)
     torch.set_num_threads(2)
     with rig.default_dtype(torch.float64):
         run_table(ctx)
